@@ -156,6 +156,11 @@ def analyse(ctx, fn, m, hdr, off, names, rep):
     if terminating:
         # entry typestate of the terminating API: a NUL directly behind the content inside the capacity (when there is a buffer)
         pass
+    from props import C06_content
+    try:
+        C06_content.check(fn, name, dom, leaves, facts0, off, rep)
+    except Unsupported as e:
+        rep.unk('K2', name, str(e), loc=loc)
     nob = 0
     viol, unk = [], []
     for lf in leaves:
@@ -371,6 +376,7 @@ def run(ctx):
             continue
         stale.check(rep, 'N3', f, pidx, {'a_str_setm', 'a_str_setm_'})
     rep.floor('N3', 2)
+    rep.floor('K2', 8)
     rep.floor('B2', 30)
     rep.floor('V1', 1)
     rep.floor('K1', 1)
